@@ -226,6 +226,33 @@ def _dir_or_angle(draw, B, s, ref, pid):
         B.add(s, "direction", to=pid)
 
 
+def apply_implicit_stdevs(draw, net):
+    """Implicit standard deviations (attributes of <points-observations>): observations of clusters without a covariance
+    matrix lose their stdev attribute (half of them) and take the documented default instead - for lengths
+    a + b * (observed value / 1 km)^c.  Call last: the defaults of lengths depend on the observed values."""
+    imp = {"direction": draw(st.sampled_from([10.0, 7.5])), "angle": draw(st.sampled_from([14.0, 10.0])),
+           "z-angle": draw(st.sampled_from([12.0, 20.0])), "azimuth": draw(st.sampled_from([15.0, 9.0])),
+           "dist": [draw(st.sampled_from([5.0, 3.0])), draw(st.sampled_from([0.0, 2.0, 10.0])), draw(st.sampled_from([1.0, 0.5, 2.0]))]}
+    vals = nm.observed_values(net)
+    n = 0
+    for cl, vv in zip(net["clusters"], vals):
+        if cl["k"] != "obs" or cl.get("cov") is not None:
+            continue
+        for ob, v in zip(cl["obs"], vv):
+            if not draw(st.booleans()):
+                continue
+            if ob["t"] in ("distance", "s-distance"):
+                a, b, c = imp["dist"]
+                ob["sd"] = a + b * (v / 1000.0) ** c
+            else:
+                ob["sd"] = imp[ob["t"]]
+            ob["implicit_sd"] = True
+            n += 1
+    if n:
+        net["implicit"] = imp
+    return n
+
+
 @st.composite
 def determined_network(draw, noise=1, dims=None, free=False, allow_cov=True, all_axes=True,
                        n_max=8, omit=True, heights_dh=True, isotropic=False, only_recipe=None, stretch=True, box=None):
@@ -525,7 +552,17 @@ def is_determined(net, tol=2e-3):
     if A.shape[0] < A.shape[1]:
         return False
     s = np.linalg.svd(A / np.maximum(np.linalg.norm(A, axis=0), 1e-300), compute_uv=False)
-    return bool(s[-1] > tol * s[0])
+    if not bool(s[-1] > tol * s[0]):
+        return False
+    # determined, but so weakly that gama's documented protection (a priori sigma above 10 m) may remove a coordinate:
+    # not part of the domain of "determined networks" (limit 1 m, a factor 10 below gama's)
+    try:
+        Q = np.linalg.inv(A.T @ A)
+    except np.linalg.LinAlgError:
+        return False
+    idx = [j for k, j in cols.items() if k[0] != "orient"]
+    d = np.diag(Q)[idx]
+    return not bool(np.any(~np.isfinite(d)) or np.any(d < 0) or (len(d) and np.sqrt(np.max(d)) > 1000.0))
 
 
 def weak_geometry(net, limit_mm=1000.0):
